@@ -44,6 +44,11 @@ func headerOf(tape []byte, ps []*party) (string, []byte, []int, error) {
 
 func runC06(cx *ctx) {
 	r := cx.rng
+	// the chunk counter beyond its lowest byte: 257 chunks (16 MiB), byte-exact against the Lean reference
+	{
+		rb := r.Fork()
+		cx.ru.Do(func() *h.Case { return bigCounterCase(rb, 257) })
+	}
 	for i := 0; i < cx.n(500, 5000); i++ {
 		rr := r.Fork()
 		cx.ru.Do(func() *h.Case {
